@@ -12,7 +12,7 @@
    returns true exactly when the request was not pending, every dequeued request was pending,
    every store leaves the byte equal to the pending requests (nothing lost, nothing resurrected)
    and the final queue content is the set of pending requests. *)
-From BT Require Import Base.ListX Base.Bits2 NQueue.NQueueModel NQueue.NQueueSpec NQueue.NQueueSched NQueue.NQueueSchedProofs.
+From BT Require Import Base.ListX Base.Bits2 NQueue.NQueueModel NQueue.NQueueSpec NQueue.NQueueProofs NQueue.NQueueSched NQueue.NQueueSchedProofs NQueue.NQueueSchedSeq.
 
 (* ---- the property as stated: every schedule, free interleaving *)
 Definition C13_full : Prop :=
@@ -145,6 +145,43 @@ Theorem C13_partial_lock :
     smonitor sizes (srun (sinit sizes) ops) = None.
 Proof. exact lock_accepts. Qed.
 Print Assumptions C13_partial_lock.
+
+(* ---- the lock discipline IS the sequential model of C12 (unbounded: all partitions with levels
+   >= 1, all sequences of queue_notification / queue_indication / dequeue / indication_confirmed
+   of any length; clear_indications_and_confirmations is not part of the micro-step semantics).
+   seq_prog F ops pushes one operation at a time and gives its context F micro-steps (F at least
+   fuel_for sizes = sum of the sizes + number of levels + 3; steps after the end of the operation
+   are idle). Such a run obeys g_lock, ends in exactly the state of NQueueModel.final (both contexts
+   idle, nothing left to do) and its completed operations return exactly NQueueModel.run's outputs,
+   in order. *)
+Theorem C13_lock_discipline_is_the_C12_model :
+  forall (sizes : list nat) (ops : list op) (F : nat),
+    wf_sizes sizes -> no_clear ops = true -> (fuel_for sizes <= F)%nat ->
+    guarded g_lock (sinit sizes) (seq_prog F ops) = true /\
+    sfinal (sinit sizes) (seq_prog F ops) = qs (final (init sizes) ops) /\
+    map out_of_ret (rets (srun (sinit sizes) (seq_prog F ops))) = map snd (run (init sizes) ops).
+Proof. exact lock_discipline_is_sequential_model. Qed.
+Print Assumptions C13_lock_discipline_is_the_C12_model.
+
+(* C13_partial_lock resting on C12's theorem (NQueueProofs.monitor_accepts_model) instead of the
+   C13 invariant: what the two contexts observe in a lock-disciplined run is accepted by the C12
+   monitor - queue_* returns true exactly when the request was not pending, every dequeued request
+   was pending and is removed (so each accepted request is dequeued exactly once: nothing lost,
+   nothing duplicated), no indication while one is outstanding, priorities and round robin. *)
+Theorem C13_partial_lock_from_C12 :
+  forall (sizes : list nat) (ops : list op) (F : nat),
+    wf_sizes sizes -> no_clear ops = true -> (fuel_for sizes <= F)%nat ->
+    monitor sizes (combine ops (map out_of_ret (rets (srun (sinit sizes) (seq_prog F ops))))) = None.
+Proof. exact lock_discipline_accepted_by_C12_monitor. Qed.
+Print Assumptions C13_partial_lock_from_C12.
+
+Example C13_lock_program_nonvacuous :
+  let ops := [QueueN 0; QueueI 3; QueueN 5; Dequeue; Dequeue; Confirm; QueueN 6; Dequeue; Dequeue]%nat in
+  fuel_for [3; 1; 2]%nat = 12%nat /\ no_clear ops = true /\
+  map out_of_ret (rets (srun (sinit [3; 1; 2]%nat) (seq_prog 12 ops))) =
+  [OBool true; OBool true; OBool true; OEntry (Some (KNotif, 0%nat)); OEntry (Some (KInd, 3%nat)); OUnit;
+   OBool false; OEntry (Some (KNotif, 5%nat)); OEntry None].
+Proof. vm_compute. repeat split; reflexivity. Qed.
 
 (* ---- non-vacuity *)
 (* a non-trivial run satisfies the hypotheses of the partial theorems: three levels (one of size
